@@ -1,7 +1,7 @@
 (* C14 — Any layout file is either rejected with a message or runs without crashing.
    Statements only; proofs are in TM.ParserLemmas, TM.OdometerLemmas, TM.ConvertLemmas,
    TM.ExpandLemmas and TM.LoadedWf. *)
-From TM Require BuiltinFacts.
+From TM Require BuiltinFacts LoopNoPanic Loop.
 From TMGen Require Builtins.
 From TM Require Import Base Json RustOps Fancy Mapper Parser Convert RustOpsLemmas ParserLemmas OdometerLemmas ExpandLemmas LoadedWf.
 From TM Require Import MapperTotal.
@@ -75,6 +75,32 @@ Proof.
   intros n j H. destruct (BuiltinFacts.builtins_ok n j H) as [L [H1 [H2 _]]]. exists L. split; assumption.
 Qed.
 Print Assumptions C14_builtin_layouts_load_and_install.
+
+(* Beyond the property's letter (it speaks of the mapper): the per-device EVENT
+   LOOP around the mapper does not panic either - for EVERY layout whose Special
+   repeats have 0 <= delay_ms, interval_ms, EVERY answer script with fewer than
+   54 interrupted polls and clock readings that leave room below the end of
+   Instant's range for the length of the run (T + (length + 2) * 2^31 ms) ... *)
+Theorem C14_event_loop_does_not_panic :
+  forall (is_action : key -> bool) (L : layout) (T : Z) (rs : list Loop.resp),
+    LoopNoPanic.timings_ok L = true ->
+    (forall t, In (Loop.RNow t) rs -> (t <= T)%Z) ->
+    (T + (Z.of_nat (length rs) + 2) * LoopNoPanic.bns <= Loop.instant_limit)%Z ->
+    (LoopNoPanic.interrupts rs <= 53)%Z ->
+    snd (Loop.run is_action L rs) <> Loop.Panicked.
+Proof. intros ia L T rs Ht. exact (LoopNoPanic.loop_does_not_panic ia L T Ht rs). Qed.
+Print Assumptions C14_event_loop_does_not_panic.
+
+(* ... and the guard on the timings is needed (recorded in DESIGN.md 8.7: the
+   parser accepts negative delay/interval; this is outside the letter of C14 and
+   of C11, whose theorems carry the same guard): interval_ms = -1 panics after
+   about 500 ticks of the repeat timer. *)
+Theorem C14_event_loop_panics_with_negative_interval :
+  LoopNoPanic.timings_ok LoopNoPanic.neg_layout = false
+  /\ LoopNoPanic.interrupts (LoopNoPanic.neg_script 520) = 0%Z
+  /\ snd (Loop.run (fun _ => true) LoopNoPanic.neg_layout (LoopNoPanic.neg_script 520)) = Loop.Panicked.
+Proof. exact LoopNoPanic.no_panic_needs_nonneg. Qed.
+Print Assumptions C14_event_loop_panics_with_negative_interval.
 
 Example C14_example :
   tuples [2; 3]%nat = [[0; 0]; [1; 0]; [0; 1]; [1; 1]; [0; 2]; [1; 2]]%nat
